@@ -34,12 +34,6 @@ Qed.
 Lemma zinter_In x a b : In x (zinter a b) <-> In x a /\ In x b.
 Proof. unfold zinter. rewrite filter_In, zmem_In. tauto. Qed.
 
-Lemma push_In x l s : In x (push l s) <-> In x l \/ In x s.
-Proof. unfold push. rewrite in_app_iff, <- in_rev. tauto. Qed.
-
-Lemma push_length l s : length (push l s) = (length l + length s)%nat.
-Proof. unfold push. rewrite app_length, rev_length. reflexivity. Qed.
-
 Lemma filter_length_le {A} (f : A -> bool) (l : list A) : (length (filter f l) <= length l)%nat.
 Proof. induction l as [|x l IH]; cbn; [lia|]. destruct (f x); cbn; lia. Qed.
 
@@ -128,124 +122,182 @@ Section Reach.
   Qed.
 End Reach.
 
-(* ---------- the potential that bounds the repaired walk ---------- *)
-Definition phi (g : graph) (gs : list Z) : nat :=
-  fold_right (fun vl acc => ((if zmem (fst vl) gs then 0 else S (length (snd vl))) + acc)%nat) 0%nat g.
-
-Lemma phi_le_total g gs : (phi g gs <= total_size g)%nat.
+(* ---------- small facts used by the walk ---------- *)
+Lemma NoDup_zadd x l : NoDup l -> NoDup (zadd x l).
 Proof.
-  induction g as [|[v l] g IH]; [cbn; lia|].
-  cbn [phi total_size fold_right fst snd]. fold (phi g gs). fold (total_size g).
-  destruct (zmem v gs); lia.
+  intros H. unfold zadd. destruct (zmem x l) eqn:E; [exact H|].
+  constructor; [apply zmem_false; exact E|exact H].
 Qed.
 
-Lemma phi_mono g gs c : (phi g (c :: gs) <= phi g gs)%nat.
-Proof.
-  induction g as [|[v l] g IH]; cbn [phi fold_right fst snd]; [lia|].
-  fold (phi g (c :: gs)). fold (phi g gs).
-  cbn [zmem existsb]. fold (zmem v gs).
-  destruct (v =? c); cbn [orb]; destruct (zmem v gs); lia.
-Qed.
+Lemma zadd_length_new x l : zmem x l = false -> length (zadd x l) = S (length l).
+Proof. intros E. unfold zadd. rewrite E. reflexivity. Qed.
 
-Lemma phi_mark g gs c nb : zget g c = Some nb -> zmem c gs = false ->
-  (phi g (zadd c gs) + S (length nb) <= phi g gs)%nat.
-Proof.
-  intros Hget Hc. unfold zadd. rewrite Hc.
-  induction g as [|[v l] g IH]; [discriminate|].
-  cbn [phi fold_right fst snd]. fold (phi g (c :: gs)). fold (phi g gs).
-  cbn [zget] in Hget. cbn [zmem existsb]. fold (zmem v gs).
-  destruct (Z.eqb_spec c v) as [->|Hne].
-  - inversion Hget; subst. rewrite Z.eqb_refl. cbn [orb]. rewrite Hc.
-    pose proof (phi_mono g gs v). lia.
-  - assert (E : (v =? c) = false) by (apply Z.eqb_neq; congruence). rewrite E. cbn [orb].
-    specialize (IH Hget). destruct (zmem v gs); lia.
-Qed.
+(* ---------- the inner `for m in bonds[stack.pop()]` loop ---------- *)
+Section Visit.
+  Variables (K D : list Z).
+
+  Lemma visit_fold : forall nb stack seen att stack' seen' att',
+    fold_left (visit K D) nb (stack, seen, att) = (stack', seen', att') ->
+    (forall v, In v seen' <-> In v seen \/ (In v nb /\ ~ In v K /\ ~ In v D)) /\
+    (forall s, In s stack' <-> In s stack \/ (In s seen' /\ ~ In s seen)) /\
+    (att' = true <-> att = true \/ exists m, In m nb /\ In m K) /\
+    (NoDup seen -> NoDup seen') /\
+    (length stack' + length seen = length stack + length seen')%nat.
+  Proof.
+    induction nb as [|m nb IH]; intros stack seen att stack' seen' att' H.
+    - cbn [fold_left] in H. inversion H; subst. split; [|split; [|split; [|split]]].
+      + intros v. split; [auto|]. intros [Hv|([] & _)]. exact Hv.
+      + intros s. split; [auto|]. intros [Hs|[Hs Hn]]; [exact Hs|contradiction].
+      + split; [auto|]. intros [Ha|(m & [] & _)]. exact Ha.
+      + auto.
+      + reflexivity.
+    - cbn [fold_left] in H.
+      destruct (visit K D (stack, seen, att) m) as [[stack1 seen1] att1] eqn:E1.
+      apply IH in H. destruct H as (A & B & C & Dn & L).
+      unfold visit in E1.
+      destruct (zmem m K) eqn:EK.
+      + (* m is a kept matched atom *)
+        inversion E1; subst stack1 seen1 att1. apply zmem_In in EK.
+        split; [|split; [|split; [|split]]].
+        * intros v. rewrite A. split.
+          -- intros [Hv|(Hv & HK & HD)]; [left; exact Hv|right; split; [right; exact Hv|split; assumption]].
+          -- intros [Hv|([<-|Hv] & HK & HD)]; [left; exact Hv|contradiction|right; split; [exact Hv|split; assumption]].
+        * exact B.
+        * split; [intros _; right; exists m; split; [left; reflexivity|exact EK]|].
+          intros _. apply C. left. reflexivity.
+        * exact Dn.
+        * exact L.
+      + apply zmem_false in EK.
+        destruct (negb (zmem m D) && negb (zmem m seen)) eqn:EN.
+        * (* m is new: seen.add(m); stack.append(m) *)
+          inversion E1; subst stack1 seen1 att1.
+          apply andb_prop in EN. destruct EN as [ED ES]. apply negb_true_iff in ED. apply negb_true_iff in ES.
+          pose proof (zadd_length_new m seen ES) as Hlen.
+          apply zmem_false in ED. apply zmem_false in ES.
+          assert (A' : forall v, In v seen' <-> In v seen \/ (In v (m :: nb) /\ ~ In v K /\ ~ In v D)).
+          { intros v. rewrite A, zadd_In. split.
+            - intros [[->|Hv]|(Hv & HK & HD)].
+              + right. split; [left; reflexivity|split; assumption].
+              + left. exact Hv.
+              + right. split; [right; exact Hv|split; assumption].
+            - intros [Hv|([<-|Hv] & HK & HD)].
+              + left. right. exact Hv.
+              + left. left. reflexivity.
+              + right. split; [exact Hv|split; assumption]. }
+          split; [exact A'|]. split; [|split; [|split]].
+          -- intros s. rewrite B. split.
+             ++ intros [[<-|Hs]|[Hs Hn]].
+                ** right. split; [|exact ES]. apply A. left. apply zadd_In. left. reflexivity.
+                ** left. exact Hs.
+                ** right. split; [exact Hs|]. intros Hc. apply Hn. apply zadd_In. right. exact Hc.
+             ++ intros [Hs|[Hs Hn]]; [left; right; exact Hs|].
+                destruct (Z.eq_dec s m) as [->|Hne]; [left; left; reflexivity|].
+                right. split; [exact Hs|]. intros Hc. apply zadd_In in Hc. destruct Hc as [Hc|Hc]; [contradiction|contradiction].
+          -- rewrite C. split.
+             ++ intros [Ha|(m' & Hm' & HK)]; [left; exact Ha|right; exists m'; split; [right; exact Hm'|exact HK]].
+             ++ intros [Ha|(m' & [<-|Hm'] & HK)]; [left; exact Ha|contradiction|right; exists m'; split; assumption].
+          -- intros Hnd. apply Dn. apply NoDup_zadd. exact Hnd.
+          -- cbn [length] in L. lia.
+        * (* m is deleted or already seen: nothing happens *)
+          inversion E1; subst stack1 seen1 att1.
+          assert (Hm : In m D \/ In m seen).
+          { apply andb_false_iff in EN. destruct EN as [E|E]; apply negb_false_iff in E; apply zmem_In in E; auto. }
+          split; [|split; [|split; [|split]]].
+          -- intros v. rewrite A. split.
+             ++ intros [Hv|(Hv & HK & HD)]; [left; exact Hv|right; split; [right; exact Hv|split; assumption]].
+             ++ intros [Hv|([<-|Hv] & HK & HD)]; [left; exact Hv| |right; split; [exact Hv|split; assumption]].
+                destruct Hm as [Hm|Hm]; [contradiction|left; exact Hm].
+          -- exact B.
+          -- rewrite C. split.
+             ++ intros [Ha|(m' & Hm' & HK)]; [left; exact Ha|right; exists m'; split; [right; exact Hm'|exact HK]].
+             ++ intros [Ha|(m' & [<-|Hm'] & HK)]; [left; exact Ha|contradiction|right; exists m'; split; assumption].
+          -- exact Dn.
+          -- exact L.
+  Qed.
+End Visit.
 
 (* ====================================================================================================
-   the repaired _get_deleted meets the specification
+   _get_deleted meets the specification
    ==================================================================================================== *)
-Section Fixed.
+Section GetDeleted.
   Variables (g : graph) (D K : list Z).
   Hypothesis Hsym : forall a b, adj g a b -> adj g b a.
   Hypothesis HKD : forall k, In k K -> ~ In k D.
 
   Section Walk.
-    Variables (n : Z) (gs0 : list Z).
+    Variable n : Z.
 
-    (* invariant of the while loop of one walk started at n *)
-    Definition WI (stack seen gs : list Z) : Prop :=
-      (forall v, In v gs <-> In v gs0 \/ In v seen) /\
-      (forall v, In v seen -> reach_av g D n v /\ ~ In v K /\ ~ In v gs0) /\
-      (forall s, In s stack -> exists v, In v seen /\ adj g v s) /\
-      (forall v w, In v seen -> adj g v w -> In w gs \/ In w stack \/ In w D) /\
-      In n seen.
+    (* invariant of the while loop of one walk started at n; the atoms of `seen` that are no longer on the stack have
+       been processed: each of their neighbours is deleted, kept (then `attached` is set) or seen *)
+    Definition WI (stack seen : list Z) (att : bool) : Prop :=
+      (forall v, In v seen -> reach_av g D n v /\ ~ In v K /\ In v (keys g)) /\
+      (forall s, In s stack -> In s seen) /\
+      (forall v w, In v seen -> ~ In v stack -> adj g v w -> In w seen \/ In w D \/ In w K) /\
+      (forall v w, In v seen -> ~ In v stack -> adj g v w -> In w K -> att = true) /\
+      (att = true -> exists k, In k K /\ reach_av g D n k) /\
+      In n seen /\ NoDup seen.
 
-    Lemma walk_fixed_ok : forall fuel stack seen gs,
-      WI stack seen gs -> (phi g gs + length stack < fuel)%nat ->
-      match walk_fixed g K D fuel stack seen gs with
-      | WBreak gs' _ => (forall v, In v gs' <-> In v gs0) /\ exists k, In k K /\ reach_av g D n k
-      | WDone gs' seen' => WI [] seen' gs'
+    Lemma walk_ok : forall fuel stack seen att,
+      WI stack seen att -> (length g + length stack < fuel + length seen)%nat ->
+      match walk g K D fuel stack seen att with
+      | WDone seen' att' => WI [] seen' att'
       | WKeyErr | WFuel => False
       end.
     Proof.
-      induction fuel as [|f IH]; intros stack seen gs HI Hf; [lia|].
-      destruct HI as (Ha & Hb & Hc & Hd & He).
-      cbn [walk_fixed]. destruct stack as [|cur rest].
-      - exact (conj Ha (conj Hb (conj Hc (conj Hd He)))).
-      - destruct (zmem cur K) eqn:EK.
-        + apply zmem_In in EK. split.
-          * intros v. rewrite zdiff_In, Ha. split.
-            -- intros [[H|H] Hn]; [exact H|contradiction].
-            -- intros H. split; [left; exact H|]. intros Hs. apply Hb in Hs. tauto.
-          * exists cur. split; [exact EK|].
-            destruct (Hc cur (or_introl eq_refl)) as (v & Hv & Hvc).
-            eapply ra_step; [apply Hb; exact Hv|exact Hvc|apply HKD; exact EK].
-        + apply zmem_false in EK.
-          destruct (zmem cur D || zmem cur gs) eqn:ES.
-          * apply IH; [|cbn [length] in Hf; lia].
-            split; [exact Ha|]. split; [exact Hb|]. split; [|split; [|exact He]].
-            -- intros s Hs. apply Hc. right. exact Hs.
-            -- intros v w Hv Hvw. destruct (Hd v w Hv Hvw) as [H|[[H|H]|H]]; auto.
-               subst w. apply orb_true_iff in ES. destruct ES as [ES|ES]; apply zmem_In in ES; auto.
-          * apply orb_false_iff in ES. destruct ES as [ED EG].
-            apply zmem_false in ED.
-            destruct (Hc cur (or_introl eq_refl)) as (v0 & Hv0 & Hv0c).
-            destruct (adj_has_entry _ _ _ (Hsym _ _ Hv0c)) as [nb Enb]. rewrite Enb.
-            pose proof (phi_mark g gs cur nb Enb EG) as Hphi.
-            apply zmem_false in EG.
-            apply IH.
-            -- unfold WI. split; [|split; [|split; [|split]]].
-               ++ intros v. rewrite !zadd_In, Ha. tauto.
-               ++ intros v Hv. apply zadd_In in Hv. destruct Hv as [->|Hv]; [|apply Hb; exact Hv].
-                  split; [|split].
-                  ** eapply ra_step; [apply Hb; exact Hv0|exact Hv0c|exact ED].
-                  ** exact EK.
-                  ** intros H. apply EG. apply Ha. left. exact H.
-               ++ intros s Hs. apply push_In in Hs. destruct Hs as [Hs|Hs].
-                  ** apply filter_In in Hs. destruct Hs as [Hs _]. exists cur. split; [apply zadd_In; left; reflexivity|].
-                     unfold adj. rewrite (gnbrs_Some _ _ _ Enb). exact Hs.
-                  ** destruct (Hc s (or_intror Hs)) as (v & Hv & Hvs). exists v. split; [apply zadd_In; right; exact Hv|exact Hvs].
-               ++ intros v w Hv Hvw. apply zadd_In in Hv. destruct Hv as [->|Hv].
-                  ** unfold adj in Hvw. rewrite (gnbrs_Some _ _ _ Enb) in Hvw.
-                     destruct (zmem w (zadd cur gs)) eqn:Ew.
-                     --- left. apply zmem_In. exact Ew.
-                     --- right. left. apply push_In. left. apply filter_In. split; [exact Hvw|]. rewrite Ew. reflexivity.
-                  ** destruct (Hd v w Hv Hvw) as [H|[[H|H]|H]].
-                     --- left. apply zadd_In. right. exact H.
-                     --- left. apply zadd_In. left. symmetry. exact H.
-                     --- right. left. apply push_In. right. exact H.
-                     --- right. right. exact H.
-               ++ apply zadd_In. right. exact He.
-            -- rewrite push_length. cbn [length] in Hf.
-               pose proof (filter_length_le (fun x => negb (zmem x (zadd cur gs))) nb). lia.
+      induction fuel as [|f IH]; intros stack seen att HI Hf.
+      - (* out of fuel is impossible: seen is a duplicate-free list of atoms of g *)
+        destruct HI as (Ha & _ & _ & _ & _ & _ & Hnd).
+        assert (Hle : (length seen <= length (keys g))%nat).
+        { apply NoDup_incl_length; [exact Hnd|]. intros v Hv. apply (Ha v Hv). }
+        unfold keys in Hle. rewrite map_length in Hle. lia.
+      - cbn [walk]. destruct stack as [|cur rest]; [exact HI|].
+        destruct HI as (Ha & Hb & Hc & Hc' & Hd & He & Hnd).
+        assert (Hcur : In cur seen) by (apply Hb; left; reflexivity).
+        destruct (Ha cur Hcur) as (Rcur & Kcur & Kgcur).
+        destruct (zget_key_Some _ _ Kgcur) as [nb Enb]. rewrite Enb.
+        destruct (fold_left (visit K D) nb (rest, seen, att)) as [[stack' seen'] att'] eqn:EF.
+        destruct (visit_fold K D nb rest seen att stack' seen' att' EF) as (A & B & C & Dn & L).
+        assert (Hadj : forall w, adj g cur w <-> In w nb).
+        { intros w. unfold adj. rewrite (gnbrs_Some _ _ _ Enb). tauto. }
+        (* an atom of the new `seen` that is not on the new stack and is not `cur` was processed before *)
+        assert (Hold : forall v, In v seen' -> ~ In v stack' -> v <> cur -> In v seen /\ ~ In v (cur :: rest)).
+        { intros v Hv Hns Hne.
+          destruct (in_dec Z.eq_dec v seen) as [Hvs|Hvs].
+          - split; [exact Hvs|]. intros [Hc0|Hc0]; [congruence|]. apply Hns. apply B. left. exact Hc0.
+          - exfalso. apply Hns. apply B. right. split; assumption. }
+        apply IH.
+        + unfold WI. split; [|split; [|split; [|split; [|split; [|split]]]]].
+          * intros v Hv. apply A in Hv. destruct Hv as [Hv|(Hv & HK & HD)]; [apply Ha; exact Hv|].
+            apply Hadj in Hv. split; [|split; [exact HK|]].
+            -- eapply ra_step; [exact Rcur|exact Hv|exact HD].
+            -- eapply adj_key. apply Hsym. exact Hv.
+          * intros s Hs. apply B in Hs. destruct Hs as [Hs|[Hs _]]; [|exact Hs].
+            apply A. left. apply Hb. right. exact Hs.
+          * intros v w Hv Hns Hvw.
+            destruct (Z.eq_dec v cur) as [->|Hne].
+            -- apply Hadj in Hvw.
+               destruct (in_dec Z.eq_dec w K) as [HK|HK]; [right; right; exact HK|].
+               destruct (in_dec Z.eq_dec w D) as [HD|HD]; [right; left; exact HD|].
+               left. apply A. right. split; [exact Hvw|split; assumption].
+            -- destruct (Hold v Hv Hns Hne) as [Hvs Hnst].
+               destruct (Hc v w Hvs Hnst Hvw) as [H|[H|H]]; [left; apply A; left; exact H|right; left; exact H|right; right; exact H].
+          * intros v w Hv Hns Hvw HwK. apply C.
+            destruct (Z.eq_dec v cur) as [->|Hne].
+            -- right. exists w. split; [apply Hadj; exact Hvw|exact HwK].
+            -- destruct (Hold v Hv Hns Hne) as [Hvs Hnst]. left. eapply Hc'; eassumption.
+          * intros Hatt. apply C in Hatt. destruct Hatt as [Hatt|(m & Hm & HmK)]; [apply Hd; exact Hatt|].
+            exists m. split; [exact HmK|]. eapply ra_step; [exact Rcur|apply Hadj; exact Hm|apply HKD; exact HmK].
+          * apply A. left. exact He.
+          * apply Dn. exact Hnd.
+        + cbn [length] in Hf. lia.
     Qed.
   End Walk.
 
-  (* invariant of the two outer loops; st = (delete, global_seen) *)
+  (* invariant of the two outer loops; st = (delete, keep) *)
   Definition OI (st : list Z * list Z) : Prop :=
-    (forall v, In v (snd st) <-> In v (fst st)) /\
     (forall v, In v (fst st) -> detached g D K v) /\
-    (forall v w, In v (fst st) -> reach_av g D v w -> In w (fst st)).
+    (forall v w, In v (fst st) -> reach_av g D v w -> In w (fst st)) /\
+    (forall v, In v (snd st) -> ~ In v D /\ ~ In v K /\ attached g D v /\ exists k, In k K /\ reach_av g D v k).
 
   (* what has been decided about a neighbour m of a deleted atom *)
   Definition handled (delete : list Z) (m : Z) : Prop :=
@@ -254,77 +306,76 @@ Section Fixed.
   Lemma handled_mono d d' m : (forall v, In v d -> In v d') -> handled d m -> handled d' m.
   Proof. unfold handled. intros H [?|[?|[?|?]]]; auto. Qed.
 
-  Lemma start_walk_fixed_ok st m :
+  Lemma start_walk_ok st m :
     OI st -> (exists d, In d D /\ adj g d m) ->
-    exists st', start_walk_fixed g K D (fuel_fixed g) st m = Ok st' /\ OI st' /\
+    exists st', start_walk g K D st m = Ok st' /\ OI st' /\
                 (forall v, In v (fst st) -> In v (fst st')) /\ handled (fst st') m.
   Proof.
-    destruct st as [delete gs]. intros (O1 & O2 & O3) (d & HdD & Hdm). cbn [fst snd] in *.
-    unfold start_walk_fixed.
-    destruct (zmem m gs || zmem m K || zmem m D) eqn:ES.
-    - exists (delete, gs). split; [reflexivity|]. split; [exact (conj O1 (conj O2 O3))|]. split; [auto|].
+    destruct st as [delete keep]. intros (O1 & O2 & O3) (d & HdD & Hdm). cbn [fst snd] in *.
+    unfold start_walk.
+    destruct (zmem m D || zmem m K || zmem m delete || zmem m keep) eqn:ES.
+    - exists (delete, keep). split; [reflexivity|]. split; [exact (conj O1 (conj O2 O3))|]. split; [auto|].
       cbn [fst]. unfold handled.
-      apply orb_true_iff in ES. destruct ES as [ES|ES]; [apply orb_true_iff in ES; destruct ES as [ES|ES]|];
-        apply zmem_In in ES; auto. right. right. left. apply O1. exact ES.
-    - apply orb_false_iff in ES. destruct ES as [ES ED]. apply orb_false_iff in ES. destruct ES as [EG EK].
-      destruct (adj_has_entry _ _ _ (Hsym _ _ Hdm)) as [nb Enb]. rewrite Enb.
-      pose proof (phi_mark g gs m nb Enb EG) as Hphi.
-      apply zmem_false in EG. apply zmem_false in EK. apply zmem_false in ED.
-      set (stack0 := push (filter (fun x => negb (zmem x (zadd m gs))) nb) []).
-      assert (HI : WI m gs stack0 [m] (zadd m gs)).
-      { unfold WI. split; [|split; [|split; [|split]]].
-        - intros v. rewrite zadd_In. cbn. intuition.
-        - intros v [<-|[]]. split; [apply ra_refl; exact ED|]. split; assumption.
-        - intros s Hs. unfold stack0 in Hs. apply push_In in Hs. destruct Hs as [Hs|[]].
-          apply filter_In in Hs. destruct Hs as [Hs _]. exists m. split; [left; reflexivity|].
-          unfold adj. rewrite (gnbrs_Some _ _ _ Enb). exact Hs.
-        - intros v w [<-|[]] Hvw. unfold adj in Hvw. rewrite (gnbrs_Some _ _ _ Enb) in Hvw.
-          destruct (zmem w (zadd m gs)) eqn:Ew.
-          + left. apply zmem_In. exact Ew.
-          + right. left. unfold stack0. apply push_In. left. apply filter_In. split; [exact Hvw|]. rewrite Ew. reflexivity.
-        - left. reflexivity. }
-      assert (Hf : (phi g (zadd m gs) + length stack0 < fuel_fixed g)%nat).
-      { unfold stack0, fuel_fixed. rewrite push_length. cbn [length].
-        pose proof (filter_length_le (fun x => negb (zmem x (zadd m gs))) nb).
-        pose proof (phi_le_total g gs). lia. }
-      pose proof (walk_fixed_ok m gs (fuel_fixed g) stack0 [m] (zadd m gs) HI Hf) as HW.
-      destruct (walk_fixed g K D (fuel_fixed g) stack0 [m] (zadd m gs)) as [gs' seen'|gs' seen'| |]; try contradiction.
-      + destruct HW as (Hgs' & k & HkK & Hmk).
-        exists (delete, gs'). split; [reflexivity|]. split; [|split; [auto|]].
-        * split; [|split; auto]. cbn [fst snd]. intros v. rewrite Hgs'. apply O1.
+      apply orb_true_iff in ES. destruct ES as [ES|ES]; [apply orb_true_iff in ES; destruct ES as [ES|ES];
+        [apply orb_true_iff in ES; destruct ES as [ES|ES]|]|]; apply zmem_In in ES; auto.
+      right. right. right. apply (O3 m ES).
+    - apply orb_false_iff in ES. destruct ES as [ES Ekeep]. apply orb_false_iff in ES. destruct ES as [ES Edel].
+      apply orb_false_iff in ES. destruct ES as [ED EK].
+      apply zmem_false in ED. apply zmem_false in EK.
+      assert (Hmkey : In m (keys g)) by (eapply adj_key; apply Hsym; exact Hdm).
+      assert (HI : WI m [m] [m] false).
+      { unfold WI. split; [|split; [|split; [|split; [|split; [|split]]]]].
+        - intros v [<-|[]]. split; [apply ra_refl; exact ED|split; assumption].
+        - auto.
+        - intros v w [<-|[]] Hns. exfalso. apply Hns. left. reflexivity.
+        - intros v w [<-|[]] Hns. exfalso. apply Hns. left. reflexivity.
+        - discriminate.
+        - left. reflexivity.
+        - constructor; [intros []|constructor]. }
+      assert (Hf : (length g + length [m] < fuel_walk g + length [m])%nat) by (unfold fuel_walk; cbn [length]; lia).
+      pose proof (walk_ok m (fuel_walk g) [m] [m] false HI Hf) as HW.
+      destruct (walk g K D (fuel_walk g) [m] [m] false) as [seen' att'| |]; try contradiction.
+      destruct HW as (Ha & _ & Hc & Hc' & Hd & He & _).
+      assert (Hns : forall v : Z, ~ In v []) by (intros v []).
+      destruct att'.
+      + (* the piece reaches a kept matched atom: keep.update(seen) *)
+        destruct (Hd eq_refl) as (k & HkK & Hmk).
+        exists (delete, zunion seen' keep). split; [reflexivity|]. split; [|split; [auto|]].
+        * split; [exact O1|]. split; [exact O2|]. cbn [fst snd]. intros v Hv. apply zunion_In in Hv.
+          destruct Hv as [Hv|Hv]; [|apply O3; exact Hv].
+          destruct (Ha v Hv) as (Hmv & HvK & _).
+          split; [eapply reach_notD_r; exact Hmv|]. split; [exact HvK|]. split.
+          -- exists d, m. repeat split; assumption.
+          -- exists k. split; [exact HkK|]. eapply reach_trans; [apply reach_sym; [exact Hsym|exact Hmv]|exact Hmk].
         * cbn [fst]. right. right. right. exists k. split; assumption.
-      + destruct HW as (Ha & Hb & _ & Hd & He).
-        (* the finished walk has collected the whole piece of m *)
+      + (* the finished walk has collected the whole piece of m, and no kept matched atom touches it: delete.update(seen) *)
         assert (Hclosed : forall y, reach_av g D m y -> In y seen').
         { apply reach_ind_from; [exact He|]. intros y z Hxy IHy Hyz Hz.
-          destruct (Hd y z IHy Hyz) as [H|[[]|H]]; [|contradiction].
-          apply Ha in H. destruct H as [H|H]; [|exact H]. exfalso.
-          apply (proj2 (proj2 (Hb y IHy))). apply O1.
-          apply (O3 z y); [apply O1; exact H|].
-          apply reach_edge; [exact Hz|eapply reach_notD_r; exact Hxy|apply Hsym; exact Hyz]. }
-        exists (zunion seen' delete, gs'). split; [reflexivity|]. split; [|split].
+          destruct (Hc y z IHy (Hns y) Hyz) as [H|[H|H]]; [exact H|contradiction|].
+          pose proof (Hc' y z IHy (Hns y) Hyz H). discriminate. }
+        exists (zunion seen' delete, keep). split; [reflexivity|]. split; [|split].
         * split; [|split]; cbn [fst snd].
-          -- intros v. rewrite Ha, zunion_In, O1. tauto.
-          -- intros v Hv. apply zunion_In in Hv. destruct Hv as [Hv|Hv]; [|apply O2; exact Hv].
-             destruct (Hb v Hv) as (Hmv & _ & _).
+          -- intros v Hv. apply zunion_In in Hv. destruct Hv as [Hv|Hv]; [|apply O1; exact Hv].
+             destruct (Ha v Hv) as (Hmv & _ & _).
              split; [eapply reach_notD_r; exact Hmv|]. split.
              ++ exists d, m. repeat split; assumption.
-             ++ intros y Hvy. apply (Hb y). apply Hclosed. eapply reach_trans; eassumption.
+             ++ intros y Hvy. apply (Ha y). apply Hclosed. eapply reach_trans; eassumption.
           -- intros v w Hv Hvw. apply zunion_In. apply zunion_In in Hv. destruct Hv as [Hv|Hv].
-             ++ left. apply Hclosed. eapply reach_trans; [apply Hb; exact Hv|exact Hvw].
-             ++ right. eapply O3; eassumption.
+             ++ left. apply Hclosed. eapply reach_trans; [apply Ha; exact Hv|exact Hvw].
+             ++ right. eapply O2; eassumption.
+          -- exact O3.
         * cbn [fst]. intros v Hv. apply zunion_In. right. exact Hv.
         * cbn [fst]. right. right. left. apply zunion_In. left. exact He.
   Qed.
 
   Lemma inner_loop_ok : forall l st,
     OI st -> (forall m, In m l -> exists d, In d D /\ adj g d m) ->
-    exists st', fold_res (start_walk_fixed g K D (fuel_fixed g)) l st = Ok st' /\ OI st' /\
+    exists st', fold_res (start_walk g K D) l st = Ok st' /\ OI st' /\
                 (forall v, In v (fst st) -> In v (fst st')) /\ (forall m, In m l -> handled (fst st') m).
   Proof.
     induction l as [|m l IH]; intros st HO Hl.
     - exists st. cbn. split; [reflexivity|]. split; [exact HO|]. split; [auto|]. intros m [].
-    - destruct (start_walk_fixed_ok st m HO (Hl m (or_introl eq_refl))) as (st1 & E1 & HO1 & Hm1 & Hh1).
+    - destruct (start_walk_ok st m HO (Hl m (or_introl eq_refl))) as (st1 & E1 & HO1 & Hm1 & Hh1).
       destruct (IH st1 HO1 (fun m' Hm' => Hl m' (or_intror Hm'))) as (st2 & E2 & HO2 & Hm2 & Hh2).
       exists st2. cbn [fold_res]. rewrite E1. split; [exact E2|]. split; [exact HO2|]. split; [auto|].
       intros m' [<-|Hm']; [|apply Hh2; exact Hm'].
@@ -337,7 +388,7 @@ Section Fixed.
     OI st -> incl l D ->
     exists st', fold_res (fun st x => match zget g x with
                                       | None => Err KeyError
-                                      | Some nb => fold_res (start_walk_fixed g K D (fuel_fixed g)) nb st
+                                      | Some nb => fold_res (start_walk g K D) nb st
                                       end) l st = Ok st' /\ OI st' /\
                 (forall v, In v (fst st) -> In v (fst st')) /\
                 (forall x m, In x l -> adj g x m -> handled (fst st') m).
@@ -354,23 +405,34 @@ Section Fixed.
       eapply handled_mono; [exact Hm2|]. apply Hh1. unfold adj in Hym. rewrite (gnbrs_Some _ _ _ Enb) in Hym. exact Hym.
   Qed.
 
-  Lemma get_deleted_fixed_core_spec :
-    exists r, get_deleted_fixed_core g D K = Ok r /\ forall x, In x r <-> deleted_spec g D K x.
+  (* the two sets the loops leave behind: `delete` = exactly the detached atoms; `keep` = only atoms of pieces that hung
+     on a deleted atom and still reach a kept matched atom *)
+  Lemma get_deleted_loops_spec :
+    exists delete keep, get_deleted_loops g D K = Ok (delete, keep) /\
+      (forall x, In x delete <-> detached g D K x) /\
+      (forall x, In x keep -> ~ In x D /\ ~ In x K /\ attached g D x /\ exists k, In k K /\ reach_av g D x k).
   Proof.
-    destruct (outer_loop_ok D ([], [])) as ([delete gs] & E & (O1 & O2 & O3) & _ & Hh).
-    { unfold OI. cbn. split; [tauto|]. split; [intros v []|intros v w []]. }
+    destruct (outer_loop_ok D ([], [])) as ([delete keep] & E & (O1 & O2 & O3) & _ & Hh).
+    { unfold OI. cbn. split; [intros v []|]. split; [intros v w []|intros v []]. }
     { apply incl_refl. }
-    cbn [fst snd] in *. exists (zunion delete D). unfold get_deleted_fixed_core. rewrite E. split; [reflexivity|].
-    intros x. rewrite zunion_In. unfold deleted_spec. split.
-    - intros [H|H]; [right; apply O2; exact H|left; exact H].
-    - intros [H|(HxD & (d & m & HdD & Hdm & Hmx) & Hno)]; [right; exact H|]. left.
-      destruct (Hh d m HdD Hdm) as [H|[H|[H|(k & HkK & Hmk)]]].
-      + exfalso. apply (Hno m); [apply reach_sym; assumption|exact H].
-      + exfalso. apply (reach_notD_l _ _ _ _ Hmx). exact H.
-      + eapply O3; eassumption.
-      + exfalso. apply (Hno k); [|exact HkK]. eapply reach_trans; [apply reach_sym; eassumption|exact Hmk].
+    cbn [fst snd] in *. exists delete, keep. split; [exact E|]. split; [|exact O3].
+    intros x. split; [apply O1|].
+    intros (HxD & (d & m & HdD & Hdm & Hmx) & Hno).
+    destruct (Hh d m HdD Hdm) as [H|[H|[H|(k & HkK & Hmk)]]].
+    - exfalso. apply (Hno m); [apply reach_sym; assumption|exact H].
+    - exfalso. apply (reach_notD_l _ _ _ _ Hmx). exact H.
+    - eapply O2; eassumption.
+    - exfalso. apply (Hno k); [|exact HkK]. eapply reach_trans; [apply reach_sym; eassumption|exact Hmk].
   Qed.
-End Fixed.
+
+  Lemma get_deleted_core_spec :
+    exists r, get_deleted_core g D K = Ok r /\ forall x, In x r <-> deleted_spec g D K x.
+  Proof.
+    destruct get_deleted_loops_spec as (delete & keep & E & Hdel & _).
+    exists (zunion delete D). unfold get_deleted_core. rewrite E. split; [reflexivity|].
+    intros x. rewrite zunion_In, Hdel. unfold deleted_spec. tauto.
+  Qed.
+End GetDeleted.
 
 Lemma map_image_In mapping l vs v :
   map_image mapping l = Some vs -> In v vs -> exists p, In p l /\ zget mapping p = Some v.
@@ -395,11 +457,11 @@ Qed.
 Lemma kept_not_image mapping to_del k : In k (kept mapping to_del) -> ~ In k (image mapping to_del).
 Proof. unfold kept. rewrite zdiff_In. tauto. Qed.
 
-(* the repaired function: total on well-formed input, and it returns exactly the specified set *)
-Theorem get_deleted_fixed_spec : forall g mapping to_del,
+(* _get_deleted is total on well-formed input, and it returns exactly the specified set *)
+Theorem get_deleted_spec : forall g mapping to_del,
   sym_graph g = true ->
   (forall p, In p to_del -> exists v, zget mapping p = Some v /\ In v (keys g)) ->
-  exists r, get_deleted_fixed g mapping to_del = Ok r /\
+  exists r, get_deleted g mapping to_del = Ok r /\
             forall x, In x r <-> deleted_spec g (image mapping to_del) (kept mapping to_del) x.
 Proof.
   intros g mapping to_del Hs Hm.
@@ -409,11 +471,11 @@ Proof.
   - rewrite <- Etd in *. clear Etd.
     destruct (map_image_total mapping to_del) as [vs Evs].
     { intros p Hp. destruct (Hm p Hp) as (v & Ev & _). exists v. exact Ev. }
-    assert (E : get_deleted_fixed g mapping to_del =
-                get_deleted_fixed_core g (image mapping to_del) (kept mapping to_del)).
-    { unfold get_deleted_fixed. rewrite Evs. destruct to_del; [|reflexivity].
+    assert (E : get_deleted g mapping to_del =
+                get_deleted_core g (image mapping to_del) (kept mapping to_del)).
+    { unfold get_deleted. rewrite Evs. destruct to_del; [|reflexivity].
       cbn in Evs. reflexivity. }
-    rewrite E. apply get_deleted_fixed_core_spec.
+    rewrite E. apply get_deleted_core_spec.
     + apply sym_graph_sym. exact Hs.
     + apply kept_not_image.
     + intros d Hd. unfold image in Hd. rewrite Evs in Hd. apply nodup_In in Hd.
@@ -421,16 +483,37 @@ Proof.
       destruct (Hm p Hp) as (v & Ev & Hv). congruence.
 Qed.
 
-(* ---------- consequences ---------- *)
-(* a kept matched atom (masked ones included) is never deleted; every matched-and-unkept atom is *)
-Corollary get_deleted_fixed_keeps_kept : forall g mapping to_del r,
+(* the intermediate sets of the loops (the correspondence compares them with the locals `delete` and `keep` of the real call) *)
+Theorem get_deleted_sets_spec : forall g mapping to_del,
   sym_graph g = true ->
   (forall p, In p to_del -> exists v, zget mapping p = Some v /\ In v (keys g)) ->
-  get_deleted_fixed g mapping to_del = Ok r ->
+  exists delete keep, get_deleted_sets g mapping to_del = Ok (delete, keep) /\
+    (forall x, In x delete <-> detached g (image mapping to_del) (kept mapping to_del) x) /\
+    (forall x, In x keep -> ~ In x (image mapping to_del) /\ ~ In x (kept mapping to_del) /\
+                            attached g (image mapping to_del) x /\
+                            exists k, In k (kept mapping to_del) /\ reach_av g (image mapping to_del) x k).
+Proof.
+  intros g mapping to_del Hs Hm.
+  destruct (map_image_total mapping to_del) as [vs Evs].
+  { intros p Hp. destruct (Hm p Hp) as (v & Ev & _). exists v. exact Ev. }
+  unfold get_deleted_sets. rewrite Evs. apply get_deleted_loops_spec.
+  - apply sym_graph_sym. exact Hs.
+  - apply kept_not_image.
+  - intros d Hd. unfold image in Hd. rewrite Evs in Hd. apply nodup_In in Hd.
+    destruct (map_image_In _ _ _ _ Evs Hd) as (p & Hp & Ep).
+    destruct (Hm p Hp) as (v & Ev & Hv). congruence.
+Qed.
+
+(* ---------- consequences ---------- *)
+(* a kept matched atom (masked ones included) is never deleted; every matched-and-unkept atom is *)
+Corollary get_deleted_keeps_kept : forall g mapping to_del r,
+  sym_graph g = true ->
+  (forall p, In p to_del -> exists v, zget mapping p = Some v /\ In v (keys g)) ->
+  get_deleted g mapping to_del = Ok r ->
   (forall x, In x (image mapping to_del) -> In x r) /\ (forall x, In x (kept mapping to_del) -> ~ In x r).
 Proof.
   intros g mapping to_del r Hs Hm E.
-  destruct (get_deleted_fixed_spec g mapping to_del Hs Hm) as (r' & E' & Hspec).
+  destruct (get_deleted_spec g mapping to_del Hs Hm) as (r' & E' & Hspec).
   rewrite E in E'. inversion E'; subst r'. split.
   - intros x Hx. apply Hspec. left. exact Hx.
   - intros x Hx Hr. apply Hspec in Hr. destruct Hr as [Hr|(HnD & _ & Hno)].
@@ -482,18 +565,18 @@ Proof.
   - destruct (map_image_In _ _ _ _ E' Hv) as (p & Hp & Ep). eapply map_image_In_rev; [exact E|apply Hll; exact Hp|exact Ep].
 Qed.
 
-Theorem get_deleted_fixed_order_independent : forall g mapping to_del to_del' r r',
+Theorem get_deleted_order_independent : forall g mapping to_del to_del' r r',
   sym_graph g = true ->
   (forall p, In p to_del -> exists v, zget mapping p = Some v /\ In v (keys g)) ->
   (forall p, In p to_del <-> In p to_del') ->
-  get_deleted_fixed g mapping to_del = Ok r -> get_deleted_fixed g mapping to_del' = Ok r' ->
+  get_deleted g mapping to_del = Ok r -> get_deleted g mapping to_del' = Ok r' ->
   forall x, In x r <-> In x r'.
 Proof.
   intros g mapping l l' r r' Hs Hm Hll E E'.
   assert (Hm' : forall p, In p l' -> exists v, zget mapping p = Some v /\ In v (keys g))
     by (intros p Hp; apply Hm; apply Hll; exact Hp).
-  destruct (get_deleted_fixed_spec g mapping l Hs Hm) as (r1 & E1 & H1).
-  destruct (get_deleted_fixed_spec g mapping l' Hs Hm') as (r2 & E2 & H2).
+  destruct (get_deleted_spec g mapping l Hs Hm) as (r1 & E1 & H1).
+  destruct (get_deleted_spec g mapping l' Hs Hm') as (r2 & E2 & H2).
   rewrite E in E1. rewrite E' in E2. inversion E1; inversion E2; subst r1 r2.
   assert (HD : forall v, In v (image mapping l) <-> In v (image mapping l')).
   { apply image_perm; [exact Hll|]. intros p Hp. destruct (Hm p Hp) as (v & Ev & _). exists v. exact Ev. }
@@ -516,18 +599,18 @@ Proof.
     + left. eapply ra_step; eassumption.
 Qed.
 
-Theorem get_deleted_fixed_spec_connected : forall g mapping to_del,
+Theorem get_deleted_spec_connected : forall g mapping to_del,
   sym_graph g = true -> connected g ->
   (forall p, In p to_del -> exists v, zget mapping p = Some v /\ In v (keys g)) ->
   to_del <> [] ->
-  exists r, get_deleted_fixed g mapping to_del = Ok r /\
+  exists r, get_deleted g mapping to_del = Ok r /\
     forall x, In x (keys g) ->
       (In x r <-> In x (image mapping to_del) \/
                   (~ In x (image mapping to_del) /\
                    forall y, reach_av g (image mapping to_del) x y -> ~ In y (kept mapping to_del))).
 Proof.
   intros g mapping to_del Hs Hc Hm Hne.
-  destruct (get_deleted_fixed_spec g mapping to_del Hs Hm) as (r & E & Hspec).
+  destruct (get_deleted_spec g mapping to_del Hs Hm) as (r & E & Hspec).
   exists r. split; [exact E|]. intros x Hx. rewrite Hspec. unfold deleted_spec, detached.
   split; [tauto|]. intros [H|[HnD Hno]]; [left; exact H|]. right. split; [exact HnD|]. split; [|exact Hno].
   (* some deleted atom exists and x is connected to it: the piece of x hangs on the first deleted atom of the path *)
@@ -571,81 +654,103 @@ Proof.
   eapply zget_Some_key. exact E.
 Qed.
 
-Theorem get_deleted_fixed_spec_mol : forall m mapping to_del,
+Theorem get_deleted_spec_mol : forall m mapping to_del,
   wf_mol m = true ->
   (forall p, In p to_del -> exists v, zget mapping p = Some v /\ In v (keys (m_adj m))) ->
-  exists r, get_deleted_fixed (graph_of m) mapping to_del = Ok r /\
+  exists r, get_deleted (graph_of m) mapping to_del = Ok r /\
             forall x, In x r <-> deleted_spec (graph_of m) (image mapping to_del) (kept mapping to_del) x.
 Proof.
-  intros m mapping to_del Hwf Hm. apply get_deleted_fixed_spec.
+  intros m mapping to_del Hwf Hm. apply get_deleted_spec.
   - apply wf_mol_sym_graph. exact Hwf.
   - intros p Hp. destruct (Hm p Hp) as (v & Ev & Hv). exists v. split; [exact Ev|].
     unfold graph_of, keys. rewrite map_map. cbn. exact Hv.
 Qed.
 
 (* ====================================================================================================
-   the UNCHANGED function violates the specification: two witnesses
+   non-vacuity: the two inputs on which the code before fix: b90326c violated the specification
    ==================================================================================================== *)
-(* C1N2CC1C2, atoms numbered as chython reads the SMILES; pattern [C:1][N:2] -> [C:1], match {1:5, 2:2} *)
+(* C1N2CC1C2, atoms numbered as chython reads the SMILES; pattern [C:1][N:2] -> [C:1], match {1:5, 2:2}.
+   Atom 3 hangs on the deleted atom 2 but 3-4-5 joins it to the kept atom 5: nothing but 2 is removed
+   (the old code returned {2, 3}) *)
 Definition wit_g : graph := [(1, [2; 4]); (2, [1; 3; 5]); (3, [2; 4]); (4, [3; 1; 5]); (5, [4; 2])].
 Definition wit_mapping : list (Z * Z) := [(1, 5); (2, 2)].
 Definition wit_to_del : list Z := [2].
 
-(* over-deletion: atom 3 is returned although 3-4-5 joins it to the kept atom 5 *)
-Theorem get_deleted_spec_refuted :
-  sym_graph wit_g = true /\
-  (forall p, In p wit_to_del -> exists v, zget wit_mapping p = Some v /\ In v (keys wit_g)) /\
-  exists r x, get_deleted wit_g wit_mapping wit_to_del = Ok r /\
-              ~ (In x r <-> deleted_spec wit_g (image wit_mapping wit_to_del) (kept wit_mapping wit_to_del) x).
-Proof.
-  split; [vm_compute; reflexivity|]. split.
-  { intros p [<-|[]]. exists 2. split; vm_compute; auto. }
-  exists [3; 2], 3. split; [vm_compute; reflexivity|].
-  intros [H _]. specialize (H (or_introl eq_refl)).
-  change (image wit_mapping wit_to_del) with [2] in H. change (kept wit_mapping wit_to_del) with [5] in H.
-  destruct H as [[H|[]]|(_ & _ & Hno)]; [discriminate|].
-  apply (Hno 5); [|left; reflexivity].
-  assert (N : forall a, a <> 2 -> ~ In a [2]) by (intros a Ha [E|[]]; congruence).
-  assert (R3 : reach_av wit_g [2] 3 3) by (apply ra_refl; apply N; discriminate).
-  assert (R4 : reach_av wit_g [2] 3 4).
-  { apply (ra_step _ _ 3 3 4 R3); [unfold adj; vm_compute; auto|apply N; discriminate]. }
-  apply (ra_step _ _ 3 4 5 R4); [unfold adj; vm_compute; auto|apply N; discriminate].
-Qed.
-
-(* C1N(F)N(C1)Cl; pattern [C:1][N:2][N:4] -> [C:1], match {1:1, 2:2, 4:4} *)
+(* C1N(F)N(C1)Cl; pattern [C:1][N:2][N:4] -> [C:1], match {1:1, 2:2, 4:4}: the fluorine 3 and the chlorine 6 hang only
+   on deleted atoms and go with them, the carbon 5 stays (the old code kept the chlorine) *)
 Definition wit2_g : graph := [(1, [2; 5]); (2, [1; 3; 4]); (3, [2]); (4, [2; 5; 6]); (5, [4; 1]); (6, [4])].
 Definition wit2_mapping : list (Z * Z) := [(1, 1); (2, 2); (4, 4)].
 Definition wit2_to_del : list Z := [2; 4].
 
-(* under-deletion: the chlorine 6 hangs only on the deleted atom 4 but is not returned *)
-Theorem get_deleted_spec_refuted_under :
+Example get_deleted_on_witnesses :
+  sym_graph wit_g = true /\
+  (forall p, In p wit_to_del -> exists v, zget wit_mapping p = Some v /\ In v (keys wit_g)) /\
+  get_deleted wit_g wit_mapping wit_to_del = Ok [2] /\
+  get_deleted_sets wit_g wit_mapping wit_to_del = Ok ([], [3; 4; 1]) /\
   sym_graph wit2_g = true /\
   (forall p, In p wit2_to_del -> exists v, zget wit2_mapping p = Some v /\ In v (keys wit2_g)) /\
-  exists r x, get_deleted wit2_g wit2_mapping wit2_to_del = Ok r /\
-              ~ (In x r <-> deleted_spec wit2_g (image wit2_mapping wit2_to_del) (kept wit2_mapping wit2_to_del) x).
+  sorted_res (get_deleted wit2_g wit2_mapping wit2_to_del) = Ok [2; 3; 4; 6] /\
+  get_deleted_sets wit2_g wit2_mapping wit2_to_del = Ok ([6; 3], [5]).
 Proof.
   split; [vm_compute; reflexivity|]. split.
+  { intros p [<-|[]]. exists 2. split; vm_compute; auto. }
+  split; [vm_compute; reflexivity|]. split; [vm_compute; reflexivity|].
+  split; [vm_compute; reflexivity|]. split.
   { intros p [<-|[<-|[]]]; [exists 2|exists 4]; split; vm_compute; auto. }
-  exists [3; 2; 4], 6. split; [vm_compute; reflexivity|].
-  intros [_ H].
-  change (image wit2_mapping wit2_to_del) with [2; 4] in H. change (kept wit2_mapping wit2_to_del) with [1] in H.
-  assert (Hin : In 6 [3; 2; 4]).
-  { apply H. right. split; [intros [E|[E|[]]]; discriminate|]. split.
-    - exists 4, 6. split; [right; left; reflexivity|]. split; [unfold adj; vm_compute; auto|].
+  split; vm_compute; reflexivity.
+Qed.
+
+(* both witnesses are connected molecules (hypothesis of get_deleted_spec_connected) *)
+Lemma connected_from g r : (forall a b, adj g a b -> adj g b a) ->
+  (forall b, In b (keys g) -> reach_av g [] r b) -> connected g.
+Proof.
+  intros Hs Hr a b Ha Hb. eapply reach_trans; [apply reach_sym; [exact Hs|apply Hr; exact Ha]|apply Hr; exact Hb].
+Qed.
+
+Example witnesses_connected : connected wit_g /\ connected wit2_g.
+Proof.
+  assert (E : forall g x y, In y (gnbrs g x) -> reach_av g [] x x -> reach_av g [] x y).
+  { intros g x y Hy Hx. eapply ra_step; [exact Hx|exact Hy|intros []]. }
+  assert (S : forall g r x y, reach_av g [] r x -> In y (gnbrs g x) -> reach_av g [] r y).
+  { intros g r x y Hx Hy. eapply ra_step; [exact Hx|exact Hy|intros []]. }
+  split.
+  - apply (connected_from wit_g 1); [apply sym_graph_sym; vm_compute; reflexivity|].
+    assert (R1 : reach_av wit_g [] 1 1) by (apply ra_refl; intros []).
+    assert (R2 : reach_av wit_g [] 1 2) by (apply (S _ _ 1 2 R1); vm_compute; auto).
+    assert (R4 : reach_av wit_g [] 1 4) by (apply (S _ _ 1 4 R1); vm_compute; auto).
+    assert (R3 : reach_av wit_g [] 1 3) by (apply (S _ _ 2 3 R2); vm_compute; auto).
+    assert (R5 : reach_av wit_g [] 1 5) by (apply (S _ _ 2 5 R2); vm_compute; auto).
+    intros b Hb. vm_compute in Hb. repeat (destruct Hb as [<-|Hb]; [assumption|]). destruct Hb.
+  - apply (connected_from wit2_g 1); [apply sym_graph_sym; vm_compute; reflexivity|].
+    assert (R1 : reach_av wit2_g [] 1 1) by (apply ra_refl; intros []).
+    assert (R2 : reach_av wit2_g [] 1 2) by (apply (S _ _ 1 2 R1); vm_compute; auto).
+    assert (R5 : reach_av wit2_g [] 1 5) by (apply (S _ _ 1 5 R1); vm_compute; auto).
+    assert (R3 : reach_av wit2_g [] 1 3) by (apply (S _ _ 2 3 R2); vm_compute; auto).
+    assert (R4 : reach_av wit2_g [] 1 4) by (apply (S _ _ 2 4 R2); vm_compute; auto).
+    assert (R6 : reach_av wit2_g [] 1 6) by (apply (S _ _ 4 6 R4); vm_compute; auto).
+    intros b Hb. vm_compute in Hb. repeat (destruct Hb as [<-|Hb]; [assumption|]). destruct Hb.
+Qed.
+
+(* the specification really separates the atoms of the second witness: 6 is detached, 5 is not *)
+Example deleted_spec_on_witness :
+  deleted_spec wit2_g (image wit2_mapping wit2_to_del) (kept wit2_mapping wit2_to_del) 6 /\
+  ~ deleted_spec wit2_g (image wit2_mapping wit2_to_del) (kept wit2_mapping wit2_to_del) 5.
+Proof.
+  change (image wit2_mapping wit2_to_del) with [2; 4]. change (kept wit2_mapping wit2_to_del) with [1].
+  split.
+  - right. split; [intros [E|[E|[]]]; discriminate|]. split.
+    + exists 4, 6. split; [right; left; reflexivity|]. split; [unfold adj; vm_compute; auto|].
       apply ra_refl. intros [E|[E|[]]]; discriminate.
-    - (* nothing but 6 itself can be reached from 6 without passing the deleted atom 4 *)
+    + (* nothing but 6 itself can be reached from 6 without passing the deleted atom 4 *)
       assert (Hall : forall y, reach_av wit2_g [2; 4] 6 y -> y = 6).
       { apply reach_ind_from; [reflexivity|]. intros y z _ -> Ha Hz.
         unfold adj in Ha. vm_compute in Ha. destruct Ha as [<-|[]]. exfalso. apply Hz. right. left. reflexivity. }
-      intros y Hy. apply Hall in Hy. subst y. intros [E|[]]. discriminate. }
-  destruct Hin as [E|[E|[E|[]]]]; discriminate.
+      intros y Hy. apply Hall in Hy. subst y. intros [E|[]]. discriminate.
+  - intros [[E|[E|[]]]|(_ & _ & Hno)]; try discriminate.
+    apply (Hno 1); [|left; reflexivity].
+    assert (N : forall a, a <> 2 -> a <> 4 -> ~ In a [2; 4]) by (intros a H2 H4 [E|[E|[]]]; congruence).
+    eapply ra_step; [apply ra_refl; apply N; discriminate|unfold adj; vm_compute; auto|apply N; discriminate].
 Qed.
-
-(* the repaired function on the same inputs *)
-Example get_deleted_fixed_on_witnesses :
-  get_deleted_fixed wit_g wit_mapping wit_to_del = Ok [2] /\
-  sorted_res (get_deleted_fixed wit2_g wit2_mapping wit2_to_del) = Ok [2; 3; 4; 6].
-Proof. split; vm_compute; reflexivity. Qed.
 
 (* ====================================================================================================
    structural part of _patcher
@@ -713,8 +818,6 @@ Proof.
 Qed.
 
 (* ---------- nbonds[n][m] = ... : sequences of `link` ---------- *)
-Definition adjT := list (Z * list (Z * bond)).
-Definition get2 (adj : adjT) (x y : Z) : option bond := zget (match zget adj x with Some l => l | None => [] end) y.
 
 Lemma bond_of_get2 atoms adj x y : bond_of (mkMol atoms adj) x y = get2 adj x y.
 Proof. reflexivity. Qed.
@@ -827,14 +930,7 @@ Proof.
   - rewrite !keys_zset_absent; [rewrite E; reflexivity|rewrite <- E; exact Hi|exact Hi].
 Qed.
 
-Definition dummy_atom : atom := mkAtom 0 None 0 false None None.
 (* the atom the patcher builds for a replacement atom: sa = the matched atom (unused for a new atom) *)
-Definition built (ra : ratom) (sa : atom) (is_new : bool) : atom :=
-  match ra with
-  | RAny chg rad => mkAtom (a_num sa) (a_iso sa) chg rad None None
-  | RElem num iso chg rad h => mkAtom num iso chg rad (if is_new then h else None) None
-  end.
-
 Lemma patch_atom_ok g s n ra s' : patch_atom g s (n, ra) = Ok s' -> 0 <= p_max s ->
   exists m a,
     p_atoms s' = zset (p_atoms s) m a /\ p_adj s' = zset (p_adj s) m [] /\ truthy_get (p_map s') n = Some m /\
@@ -1211,10 +1307,6 @@ Proof.
 Qed.
 
 (* ---------- the anatomy of one patcher run ---------- *)
-(* x is an atom of the product that the replacement names (image of a replacement atom under the extended mapping) *)
-Definition named (tpl : template) (mp' : list (Z * Z)) (x : Z) : Prop :=
-  exists n, In n (keys (t_atoms tpl)) /\ truthy_get mp' n = Some x.
-
 Lemma get2_all_nil (adj : adjT) x y : (forall x l0, zget adj x = Some l0 -> l0 = []) -> get2 adj x y = None.
 Proof.
   intros H. unfold get2. destruct (zget adj x) as [l0|] eqn:E; [rewrite (H x l0 E)|]; reflexivity.
@@ -1599,13 +1691,6 @@ Section NamedBonds.
 End NamedBonds.
 
 (* ---------- a template whose replacement equals its pattern returns the input ---------- *)
-Definition same_request (ra : ratom) (sa : atom) : Prop :=
-  match ra with
-  | RAny chg rad => chg = a_chg sa /\ rad = a_rad sa
-  | RElem num iso chg rad _ => num = a_num sa /\ iso = a_iso sa /\ chg = a_chg sa /\ rad = a_rad sa
-  end.
-Definition core (a : atom) : Z * option Z * Z * bool := (a_num a, a_iso a, a_chg a, a_rad a).
-
 Lemma named_dec tpl mp' x : named tpl mp' x \/ ~ named tpl mp' x.
 Proof.
   unfold named. induction (keys (t_atoms tpl)) as [|n l IH].
@@ -1718,9 +1803,9 @@ Proof.
         rewrite (F2 x y Ix Iy (fun H => H) (fun H => H) (fun H => Hx (proj1 H))), Eb0 in Eb. discriminate.
 Qed.
 
-(* ---------- _patcher with the repaired _get_deleted: the atoms of the product ---------- *)
+(* ---------- _patcher as it is called (to_delete = _get_deleted(...)): the atoms of the product ---------- *)
 Theorem template_application_atoms : forall g mapping to_del tpl new mp',
-  patcher_with get_deleted_fixed g mapping to_del tpl = Ok (new, mp') ->
+  patcher_with get_deleted g mapping to_del tpl = Ok (new, mp') ->
   wf_mol g = true -> (forall x, In x (ids g) -> 0 < x) ->
   (forall p, In p to_del -> exists v, zget mapping p = Some v /\ In v (ids g)) ->
   forall x, In x (ids new) <->
@@ -1730,11 +1815,40 @@ Proof.
   intros g mapping to_del tpl new mp' Hrun Hwf Hpos Hm x.
   unfold patcher_with in Hrun.
   destruct (wf_mol_facts g Hwf) as (_ & Hkeys & _).
-  destruct (get_deleted_fixed_spec_mol g mapping to_del Hwf) as (r & Er & Hspec).
+  destruct (get_deleted_spec_mol g mapping to_del Hwf) as (r & Er & Hspec).
   { intros p Hp. destruct (Hm p Hp) as (v & Ev & Hv). exists v. split; [exact Ev|]. rewrite Hkeys. exact Hv. }
   rewrite Er in Hrun.
   destruct (patcher_frame _ _ _ _ _ _ Hrun Hwf Hpos) as (_ & _ & _ & F4 & _).
   rewrite F4, Hspec. tauto.
+Qed.
+
+(* the frame condition of the property for the whole call: an atom the template does not name and that is not in a removed
+   piece keeps its decorations and hydrogens, and keeps exactly its bonds to the atoms that survive *)
+Theorem template_application_frame : forall g mapping to_del tpl new mp',
+  patcher_with get_deleted g mapping to_del tpl = Ok (new, mp') ->
+  wf_mol g = true -> (forall x, In x (ids g) -> 0 < x) ->
+  (forall p, In p to_del -> exists v, zget mapping p = Some v /\ In v (ids g)) ->
+  let gone := deleted_spec (graph_of g) (image mapping to_del) (kept mapping to_del) in
+  (forall x a, atom_of g x = Some a -> ~ named tpl mp' x -> ~ gone x -> atom_of new x = Some (plain_atom a)) /\
+  (forall x y, In x (ids g) -> In y (ids g) -> ~ gone x -> ~ gone y -> ~ (named tpl mp' x /\ named tpl mp' y) ->
+               bond_of new x y = option_map plain (bond_of g x y)) /\
+  (forall x y b, bond_of new x y = Some b -> ~ (named tpl mp' x /\ named tpl mp' y) ->
+                 exists b0, bond_of g x y = Some b0 /\ b = plain b0 /\ ~ gone x /\ ~ gone y) /\
+  NoDup (ids new) /\ keys (m_adj new) = ids new.
+Proof.
+  intros g mapping to_del tpl new mp' Hrun Hwf Hpos Hm gone.
+  unfold patcher_with in Hrun.
+  destruct (wf_mol_facts g Hwf) as (_ & Hkeys & _).
+  destruct (get_deleted_spec_mol g mapping to_del Hwf) as (r & Er & Hspec).
+  { intros p Hp. destruct (Hm p Hp) as (v & Ev & Hv). exists v. split; [exact Ev|]. rewrite Hkeys. exact Hv. }
+  rewrite Er in Hrun.
+  destruct (patcher_frame _ _ _ _ _ _ Hrun Hwf Hpos) as (F1 & F2 & F3 & _ & F5 & F6).
+  assert (Hg : forall x, In x r <-> gone x) by exact Hspec.
+  split; [|split; [|split; [|split; assumption]]].
+  - intros x a Ha Hn Hx. apply (F1 x a Ha Hn). rewrite Hg. exact Hx.
+  - intros x y Hx Hy Gx Gy Hn. apply F2; try assumption; rewrite Hg; assumption.
+  - intros x y b Hb Hn. destruct (F3 x y b Hb Hn) as (b0 & Hb0 & Eb & Dx & Dy).
+    exists b0. rewrite <- !Hg. auto.
 Qed.
 
 (* ---------- non-vacuity: a concrete run that satisfies every hypothesis used above ---------- *)
@@ -1751,7 +1865,7 @@ Definition ex_mapping : list (Z * Z) := [(1, 2); (2, 3); (3, 4); (4, 5)].
 
 Example patcher_example :
   wf_mol ex_mol = true /\ wf_template ex_tpl = true /\ (forall x, In x (ids ex_mol) -> 0 < x) /\
-  exists new mp', patcher_with get_deleted_fixed ex_mol ex_mapping [4] ex_tpl = Ok (new, mp') /\
+  exists new mp', patcher_with get_deleted ex_mol ex_mapping [4] ex_tpl = Ok (new, mp') /\
                   ids new = [2; 3; 4; 7; 1] /\ mp' = ex_mapping ++ [(5, 7)] /\
                   bond_of new 2 4 = Some (mkBond 1 None) /\ bond_of new 4 5 = None /\
                   atom_of new 4 = Some (mkAtom 8 None (-1) false None None).
@@ -1764,12 +1878,6 @@ Qed.
 (* ====================================================================================================
    fix_mapping_overlap
    ==================================================================================================== *)
-Fixpoint all_disjoint (l : list (list Z)) : Prop :=
-  match l with
-  | [] => True
-  | a :: r => (forall b, In b r -> forall x, In x a -> ~ In x b) /\ all_disjoint r
-  end.
-
 Lemma all_disjoint_snoc l a :
   all_disjoint (l ++ [a]) <-> all_disjoint l /\ forall b, In b l -> forall x, In x b -> ~ In x a.
 Proof.
